@@ -520,6 +520,20 @@ _ADD13 = {
     "C18": " Services may return a typed-nil error value.",
     "C19": " Records may have a plain copy that was extended without Clone before they are handled.",
 }
+_ADD14 = {
+    "C04": " Round trips may be preceded by a call with a net.IP that is not an address (must be an error and leave nothing behind), also in the concurrent batches.",
+    "C07": " One line in 1500 has a names part above 64 KiB (thousands of names, delimiter runs of 65530..70000 bytes, bad names far from the start).",
+    "C09": " A callback kind makes OnDelete panic or call runtime.Goexit at chosen invocations; limits, Stats against the live entries and Get are checked after every operation, a blocked call is a violation.",
+    "C11": " A vast-capacity kind uses a zero-size element type with capacities around 2^31, 2^32, 2^33, 2^40 and 2^63 slots and a count-based oracle.",
+    "C15": " Writes also go through io.Copy from readers without WriteTo (whole and in one-byte reads), the route that uses a destination's ReadFrom.",
+    "C17": " The virtual-time kind also runs with an interface key type whose keys are distinct values that print alike.",
+    "C18": " The injected notifier may filter, clear or overwrite the signal list it is given.",
+    "C19": " A quarter of the sequential cases obtain the root handler from slogutil.New (explicit writer, or Output unset with os.Stdout replaced by a temporary file during the call; with and without AddTimestamp).",
+    "C20": " The base handler may be verbose per host: a handler derived with a chosen host attribute is enabled at every level whatever the base minimum says.",
+}
+for _pid, _lt in _ADD14.items():
+    PROPS[_pid]["level_text"] += _lt
+
 for _pid, _lt in _ADD13.items():
     PROPS[_pid]["level_text"] += _lt
 
